@@ -877,9 +877,12 @@ class Executor:
         if not runnable:
             if main.status == "done":
                 return False
-            tape = None
-            if self.check() == z3.sat:
-                tape = self.model_tape(self.solver.model())
+            r = self.check()
+            if r == z3.unsat:
+                raise PathEnd("infeasible")
+            if r != z3.sat:
+                raise PathEnd("unknown", "solver unknown confirming a blocked state")
+            tape = self.model_tape(self.solver.model())
             raise PathEnd("blocked", {"msg": "deadlock: " + "; ".join("%s:%s@%s" % (g.name, g.status, (g.wait or {}).get("where", "")) for g in self.gs), "tape": tape})
         if len(runnable) == 1:
             self.cur = runnable[0]
@@ -945,9 +948,15 @@ class Executor:
         if isinstance(res, Tup):
             raise Unsupported("harness must return bool")
         if res is False:
+            # a violation is only reported with a model of the path condition (the path may have been
+            # kept after a solver 'unknown' at a branch and be infeasible)
             r = self.check()
-            model = self.solver.model() if r == z3.sat else None
-            st.update(status="violation", label="return-false", tape=self.model_tape(model) if model is not None else None)
+            if r == z3.sat:
+                st.update(status="violation", label="return-false", tape=self.model_tape(self.solver.model()))
+            elif r == z3.unsat:
+                st.update(status="infeasible")
+            else:
+                st.update(status="unknown", info="solver unknown confirming a concrete false result")
             return st
         res = simp(res)
         if res is True:
@@ -988,8 +997,11 @@ class Executor:
             return
         if cond is False:
             r = self.check()
-            m = self.solver.model() if r == z3.sat else None
-            self.asserts_failed.append((label, self.model_tape(m) if m is not None else None))
+            if r == z3.unsat:
+                raise PathEnd("infeasible")
+            if r != z3.sat:
+                raise PathEnd("unknown", "solver unknown confirming a failed assertion " + label)
+            self.asserts_failed.append((label, self.model_tape(self.solver.model())))
             raise PathEnd("violation", {"label": label, "tape": self.asserts_failed[-1][1], "where": self.where()})
         cond = simp(cond)
         if isinstance(cond, bool):
@@ -1004,9 +1016,11 @@ class Executor:
 
     def finish_panic(self, e):
         r = self.check()
-        tape = None
-        if r == z3.sat:
-            tape = self.model_tape(self.solver.model())
+        if r == z3.unsat:
+            return {"status": "infeasible"}
+        if r != z3.sat:
+            return {"status": "unknown", "info": "solver unknown confirming a panic path (%s)" % e.kind}
+        tape = self.model_tape(self.solver.model())
         return {"status": "panic", "kind": e.kind, "msg": str(e.msg), "where": self.where(), "tape": tape,
                 "func": self.cur.stack[-1].fn["name"] if self.cur.stack else "?"}
 
